@@ -303,9 +303,10 @@ def judge(tr: dict, neutralised: bool):
             i_t, i_s = first_buf_idx[mt], first_buf_idx.get(ms)
             failed_before_buffering = any(a["m"] == mt and a["result"].startswith("fail") and a["t_end"] is not None
                                           and a["t_end"] <= fb[0] for a in tr["attempts"])
-            if sp["state"] in ("Failed", "Disconnected", "Reconnecting") and i_s is not None and i_s < i_t and failed_before_buffering:
+            if i_s is not None and i_s < i_t and failed_before_buffering:
                 # the tags message was on the wire when the connection failed; _post_async publishes state Failed and then awaits
-                # the state task BEFORE it buffers the message, so the stop produced in that window was buffered ahead of it
+                # the state task BEFORE it buffers the message, so the later produced stop (posted in that window, or a failed
+                # post itself that was resumed earlier) was buffered ahead of it
                 mech = "failed-post-buffered-behind-later-stop"
             elif sp["state"] in ("Failed", "Disconnected", "Reconnecting") and i_s is not None and i_t < i_s \
                     and last_buf_idx[mt] > i_s and any(a["m"] == ms and a["t_send"] >= last_buf[mt][0] for a in tr["attempts"]) \
